@@ -89,7 +89,7 @@ Fixpoint snap_decode (count : nat) (bs : bytes) : option (list bytes) :=
     tasks (true); false = the pinned commit: a slice sized by the queue is indexed while
     ranging over the whole (never garbage-collected) task table. *)
 Definition get_queue (sized_by_unfinished : bool) (queue_len : nat) (tasks : list (N * N)) : outcome (list N) :=
-  (* tasks: (hash, state) with state 0 added, 1 fetching, 2 fetched *)
+  (* tasks: (hash, state) with state 0 added, 1 fetching, 2 fetched, 3 failed *)
   if sized_by_unfinished then Ok (map fst (filter (fun t => negb (snd t =? 2)) tasks))
   else if (queue_len <? length tasks)%nat then Panic PIndexRange
   else Ok (map fst tasks ++ repeat 0 (queue_len - length tasks)).
